@@ -74,6 +74,10 @@ type impl struct {
 	closed  bool
 	discSent int
 	incAtClose int
+	released int // dial attempts released from the gate so far (incl. the initial connect)
+	ackAttempts int // attempts the events so far account for (1 + outages + elapsed back-offs): an attempt that starts early because the harness was slow is not shown before its event
+	dialsAtClose int
+	tokensAtClose int32
 }
 
 func waitUntil(d time.Duration, f func() bool) bool {
@@ -165,6 +169,8 @@ func (i *impl) reset() string {
 		return "err connect: " + err.Error()
 	}
 	i.conn = conn
+	i.released = 1
+	i.ackAttempts = 1
 	return "ok"
 }
 
@@ -367,6 +373,15 @@ func (i *impl) summary() string {
 	i.b.Lock()
 	dials := i.b.Dials
 	i.b.Unlock()
+	tokens := int(atomic.LoadInt32(&i.tokens))
+	if !i.closed {
+		if dials > i.ackAttempts {
+			dials = i.ackAttempts
+		}
+		if tokens > i.ackAttempts {
+			tokens = i.ackAttempts
+		}
+	}
 	nd := 0
 	for _, r := range i.b.LogFrom(0) {
 		if _, ok := r.Msg.(*message.Disconnect); ok {
@@ -377,8 +392,26 @@ func (i *impl) summary() string {
 		nd = 1 // Close while no transport was up: the Disconnect cannot reach anybody; the model counts the Close
 	}
 	return fmt.Sprintf("st=%s inc=%d dials=%d tokens=%d disc=%d reconn=%d streams=[%s] sent=[%s] pending=[%s] popen=%d failed=[%s] resumes=[%s] disconnects=%d",
-		i.status(), i.curInc(), dials, atomic.LoadInt32(&i.tokens), atomic.LoadInt32(&i.disc), atomic.LoadInt32(&i.reconn),
+		i.status(), i.curInc(), dials, tokens, atomic.LoadInt32(&i.disc), atomic.LoadInt32(&i.reconn),
 		strings.Join(ss, " "), strings.Join(sent, " "), strings.Join(pend, " "), popen, strings.Join(failed, " "), strings.Join(res, " "), nd)
+}
+
+// attemptWaiting: a redial attempt sits at the gate (it has been counted by the broker and not yet released)
+func (i *impl) attemptWaiting() bool {
+	i.b.Lock()
+	defer i.b.Unlock()
+	return i.b.Dials > i.released
+}
+
+func (i *impl) releaseAttempt(outcome string) {
+	i.b.Lock()
+	i.b.DialScript = []string{outcome}
+	old := i.gate
+	i.gate = make(chan struct{})
+	i.b.DialGate = i.gate
+	i.released = i.b.Dials
+	i.b.Unlock()
+	close(old)
 }
 
 func (i *impl) newGate() {
@@ -402,6 +435,7 @@ func (i *impl) lose(h *lp.H) {
 		h.Violate(fmt.Sprintf("the transport failed and within %v the client neither reported the disconnection nor started to reconnect (status %s)", wd, i.status()))
 	}
 	// the first redial attempt is waiting at the gate
+	i.ackAttempts++
 	waitUntil(wd, func() bool { i.b.Lock(); defer i.b.Unlock(); return i.b.Dials > dials0 })
 	// streams whose resume exchange was cut are closed with an error
 	time.Sleep(3 * time.Millisecond)
@@ -481,25 +515,32 @@ func (i *impl) exec(h *lp.H, op string) string {
 			// every resuming stream has its resume request at the broker (held): the cut is well defined
 			i.lose(h)
 		}
-	case "dial":
-		if i.status() != "r" {
+	case "backoff":
+		if i.status() != "r" || i.attemptWaiting() {
 			break
 		}
-		i.b.Lock()
-		dials0 := i.b.Dials
-		i.b.DialScript = []string{w[1]}
-		old := i.gate
-		i.gate = make(chan struct{})
-		i.b.DialGate = i.gate
-		i.b.Unlock()
+		i.ackAttempts++
+		want := i.ackAttempts
+		if !waitUntil(wd, func() bool { i.b.Lock(); defer i.b.Unlock(); return i.b.Dials >= want }) {
+			h.Violate("after a failed redial no further attempt was made within 3 s")
+		}
+		time.Sleep(2 * time.Millisecond)
+	case "failclose":
+		// the attempt in progress fails and, while the client backs off, the application closes the connection
+		if i.status() != "r" || !i.attemptWaiting() {
+			break
+		}
+		i.releaseAttempt("fail")
+		time.Sleep(4 * time.Millisecond)
+		return i.exec(h, "close")
+	case "dial":
+		if i.status() != "r" || !i.attemptWaiting() {
+			break
+		}
 		rc0 := atomic.LoadInt32(&i.reconn)
-		close(old)
+		i.releaseAttempt(w[1])
 		if w[1] == "fail" {
-			// the next attempt starts after the back-off and waits at the new gate
-			if !waitUntil(wd, func() bool { i.b.Lock(); defer i.b.Unlock(); return i.b.Dials > dials0 }) {
-				h.Violate("after a failed redial no further attempt was made within 3 s")
-			}
-			time.Sleep(2 * time.Millisecond)
+			time.Sleep(4 * time.Millisecond)
 			break
 		}
 		if !waitUntil(wd, func() bool { return atomic.LoadInt32(&i.reconn) > rc0 && i.status() == "c" }) {
@@ -659,6 +700,16 @@ func (i *impl) exec(h *lp.H, op string) string {
 				_, err := i.conn.ReceiveCall(c)
 				b.done <- err
 			}()
+			for k := 0; k < 4; k++ {
+				b := blocked{"ReceiveReplyCall blocked at Close", make(chan error, 1)}
+				bl = append(bl, b)
+				go func() {
+					c, cancel := context.WithTimeout(context.Background(), 5*time.Second)
+					defer cancel()
+					_, err := i.conn.ReceiveReplyCall(c)
+					b.done <- err
+				}()
+			}
 		}
 		time.Sleep(2 * time.Millisecond)
 		defer func() {
@@ -690,6 +741,10 @@ func (i *impl) exec(h *lp.H, op string) string {
 		i.closed = true
 		i.discSent = 1
 		_ = err
+		i.b.Lock()
+		i.dialsAtClose = i.b.Dials
+		i.b.Unlock()
+		i.tokensAtClose = atomic.LoadInt32(&i.tokens)
 		// an attempt that waits at the gate is released (the dial itself is the environment's): it fails or, sometimes, succeeds
 		i.b.Lock()
 		g := i.b.DialGate
@@ -858,6 +913,14 @@ func (i *impl) probe(h *lp.H) {
 	if dials1 != dials0 {
 		h.Violate("the client dialled again after Close")
 	}
+	// a back-off that was running at the Close must not end in a new attempt (first back-offs last 50-600 ms)
+	time.Sleep(500 * time.Millisecond)
+	i.b.Lock()
+	dials2 := i.b.Dials
+	i.b.Unlock()
+	if dials2 != i.dialsAtClose || atomic.LoadInt32(&i.tokens) != i.tokensAtClose {
+		h.Violate(fmt.Sprintf("after Close the client started a new connect attempt: dial attempts %d -> %d, token source calls %d -> %d", i.dialsAtClose, dials2, i.tokensAtClose, atomic.LoadInt32(&i.tokens)))
+	}
 	// no goroutine of the library survives once the peer side is closed too
 	for _, inc := range i.incs() {
 		inc.Kill()
@@ -931,6 +994,7 @@ func main() {
 		closedS := map[int]bool{}
 		sig := ""
 		fails := 0
+		attempting := false
 		nops := 6 + rng.Intn(12)
 		for s := 0; s < nops && !h.TooMany(); s++ {
 			r := rng.Intn(100)
@@ -962,7 +1026,7 @@ func main() {
 			case status == "c" && r < 38:
 				nreq++
 				do(fmt.Sprintf("reqcut %d", nreq))
-				status, fails = "r", 0
+				status, fails, attempting = "r", 0, true
 				for k := 1; k <= nstreams; k++ {
 					if resuming[k] {
 						closedS[k] = true
@@ -974,7 +1038,7 @@ func main() {
 				sig += "Q"
 			case status == "c" && r < 58:
 				do("kill")
-				status, fails = "r", 0
+				status, fails, attempting = "r", 0, true
 				for k := 1; k <= nstreams; k++ {
 					if resuming[k] {
 						closedS[k] = true
@@ -990,11 +1054,20 @@ func main() {
 				closedS[k] = true
 				delete(resuming, k)
 				sig += "s"
-			case status == "r" && r < 25 && fails < 2:
+			case status == "r" && !attempting && r < 70:
+				do("backoff")
+				attempting = true
+				sig += "b"
+			case status == "r" && attempting && r < 22 && fails < 2:
 				do("dial fail")
 				fails++
+				attempting = false
 				sig += "f"
-			case status == "r" && r < 70:
+			case status == "r" && attempting && r >= 22 && r < 27:
+				do("failclose")
+				status = "x"
+				sig += "F"
+			case status == "r" && attempting && r < 70:
 				do("dial ok")
 				status = "c"
 				sig += "d"
@@ -1029,6 +1102,10 @@ func main() {
 		}
 		// bring the case to a quiet end: recover, answer the resumes, probe; or close and probe
 		if status == "r" && rng.Intn(3) > 0 {
+			if !attempting {
+				do("backoff")
+				attempting = true
+			}
 			do("dial ok")
 			status = "c"
 		}
